@@ -154,7 +154,7 @@ func (t *ClusterTrace) TakeCheckpoint(ctx context.Context, phase string, round i
 func (t *ClusterTrace) QuiesceAndCheck(ctx context.Context, phase string, round int, keys []string, check Checker) bool {
 	c := t.Cluster
 	if err := c.WaitQuiesced(ctx, 8, QuiesceWatchdog); err != nil {
-		t.Inconclusive = "no-quiescence:" + phase
+		t.Inconclusive = "no-quiescence:" + phase + ": " + err.Error()
 		if cp, err := t.TakeCheckpoint(ctx, phase, round, keys); err == nil && check != nil {
 			cp.NotQuiescent = true
 			check(t, cp, true)
@@ -171,7 +171,7 @@ func (t *ClusterTrace) QuiesceAndCheck(ctx context.Context, phase string, round 
 		return true
 	}
 	if err := c.WaitQuiesced(ctx, 50, QuiesceWatchdog); err != nil {
-		t.Inconclusive = "no-quiescence-extended:" + phase
+		t.Inconclusive = "no-quiescence-extended:" + phase + ": " + err.Error()
 		return false
 	}
 	cp, err = t.TakeCheckpoint(ctx, phase, round, keys)
